@@ -4,7 +4,7 @@
 //! stdout per case, one line:
 //!   (compiled <cfg>*) | (parse-error) | (compile-error K) | (panic "file:line")
 //!   cfg ::= (cfg <name> <input> <tables> <struct>)      name: as-compiled | tree-shaken | merged-behind-<k>
-//!   input  ::= (input (reg (tuples <tu>*) (types <ty>*)) (fns (f <type_id> <istype operand>*)*)
+//!   input  ::= (input (entry <function index>) (reg (tuples <tu>*) (types <ty>*)) (fns (f <type_id> <istype operand>*)*)
 //!                     (builtins (b <param> <result>)*) (resources <name code>*))
 //!              -- the CompatibilityInput, names interned to small naturals per configuration
 //!              -- (same `tu`/`ty` syntax as qv_types)
@@ -272,8 +272,9 @@ fn dump_cfg(name: &str, bc: &Bytecode) -> String {
         }
     }
     format!(
-        "(cfg {} (input (reg (tuples {}) (types {})) (fns {}) (builtins {}) (resources {})) (tables (type {}) (fparams {}) (bparams {})) (struct (tags{}) {}))",
+        "(cfg {} (input (entry {}) (reg (tuples {}) (types {})) (fns {}) (builtins {}) (resources {})) (tables (type {}) (fparams {}) (bparams {})) (struct (tags{}) {}))",
         name,
+        bc.entry.map(|e| e as i64).unwrap_or(-1),
         tuples.join(" "),
         types.join(" "),
         fns.join(" "),
